@@ -53,3 +53,26 @@ pub fn unprotected_in_a_batch(ctx: &Ctx, p: &str) {
     });
     let _ = hex(&[]);
 }
+
+/// The override flag must come from the COMMAND LINE: an environment that holds variables named like the tool's options
+/// (every long option in upper snake case, with and without a tool prefix) set to the usual truthy spellings does not stand
+/// in for `--allow-missing-relay-protection` - an unprotected legacy transaction is still refused, in both output modes.
+pub fn override_from_the_environment(ctx: &Ctx, p: &str) {
+    let curve = Curve::new(); let key = key_of(&curve, GANACHE, "", &default_path(0));
+    let mut u = txjson::template(Kind::Legacy, false); u.chain_id = None; let text = txjson::tx_json(&u, Spell::Auto).to_text();
+    let (r0, _, _, _) = curve.sign_rfc6979(&key, &u.signing_hash()); let forbidden = r0.to_hex64();
+    let names = ["ALLOW_MISSING_RELAY_PROTECTION", "ALLOW_MISSING_REPLAY_PROTECTION", "HDWALLET_ALLOW_MISSING_RELAY_PROTECTION", "HDWALLET_SIGN_ALLOW_MISSING_RELAY_PROTECTION", "allow_missing_relay_protection", "ALLOW-MISSING-RELAY-PROTECTION", "SIGNATURE_ONLY", "CHAIN_ID", "CHAINID", "HDWALLET_OPTS", "CLAP_ARGS"];
+    let values = ["true", "1", "yes", "on", "TRUE", "", "--allow-missing-relay-protection", "1337"];
+    ctx.sweep("override-named-in-the-environment", "an unprotected legacy transaction, no override flag, with one of 11 variables named like the tool's options (upper snake case, prefixed, lower case, dashed, CHAIN_ID, an options variable) set to one of 8 values (true, 1, yes, on, TRUE, empty, the flag itself, 1337) x {full output, --signature-only} x {flag, environment} for the mnemonic: refused, nothing signed", (names.len() * values.len() * 4) as u64, |i| {
+        let mut x = i as usize; let mut take = |k: usize| { let r = x % k; x /= k; r };
+        let sig_only = take(2) == 1; let mn_env = take(2) == 1; let val = values[take(values.len())]; let name = names[take(names.len())];
+        let mut cmd = if mn_env { Cmd::new(&["sign", "transaction", "-"]).env("MNEMONIC", GANACHE) } else { Cmd::new(&["sign", "--mnemonic", GANACHE, "transaction", "-"]) };
+        if sig_only { cmd = cmd.arg("--signature-only"); } cmd = cmd.env(name, val).stdin(text.as_bytes());
+        let r = cmd.run(Build::Release); let shape = format!("override-in-env:{},sigonly={}", if name.contains("ALLOW") || name.contains("allow") { "named-like-the-flag" } else { "other-option-name" }, sig_only as u8);
+        let replay = cmd.replay("override-named-in-the-environment", i, Build::Release);
+        ctx.sample("override-named-in-the-environment", || serde_json::json!({"command": trunc(&cmd.shown(), 300)}));
+        if r.crashed() { ctx.eval(format!("{shape}:{}", r.crash_kind())); ctx.panic_violation(format!("{p}:sign:override-in-env:{}", r.crash_kind()), r.describe(), replay); return; }
+        ctx.eval(format!("{shape}:{}", if r.ok() { "signed" } else { "refused" }));
+        if r.ok() || r.out().to_lowercase().contains(&forbidden) { ctx.violation(format!("{p}:sign:override-in-env:sigonly={}:unprotected-signed", sig_only as u8), format!("with {name}={val:?} in the environment and no override flag a legacy transaction without chain id was signed: {}", trunc(&r.line(), 120)), replay) }
+    });
+}
